@@ -477,3 +477,19 @@ Definition ack_shape_ok : bool :=
   end.
 Lemma ack_shape_ok_true : ack_shape_ok = true.
 Proof. vm_compute. reflexivity. Qed.
+
+(* ---- the status values of the two device-state replies, REGENERATED (Gen.GenBeStat) and used by the model ---- *)
+From VV Require Import Gen.GenBeStat.
+(* SET_DEVICE_STATE_FD: bit 8 ("no descriptor comes with this reply") is set exactly when none is attached, and bits 0..7 are
+   zero exactly when the handler succeeded (outcome 0 = Ok(None), 2 = Ok(Some(file))) *)
+Lemma ds_reply_spec o :
+  N.testbit (ds_reply_value o) 8 = negb (ds_reply_has_fd o)
+  /\ (N.land (ds_reply_value o) 255 =? 0) = ((o =? 0) || (o =? 2))
+  /\ ds_reply_has_fd o = (o =? 2).
+Proof.
+  unfold ds_reply_value, ds_reply_has_fd. destruct (o =? 0) eqn:E0; [apply N.eqb_eq in E0; subst; repeat split; reflexivity|].
+  destruct (o =? 2); repeat split; reflexivity.
+Qed.
+(* CHECK_DEVICE_STATE: 0 exactly for success *)
+Lemma cds_reply_spec ok : (cds_reply_value ok =? 0) = ok.
+Proof. destruct ok; reflexivity. Qed.
